@@ -274,3 +274,50 @@ func SV_C05_reencoded_replay() {
 	sv.Assert(res2.Code != 0 || same, "reencoded-resubmission-changes-nothing")
 	sv.Cover(true, "replayed")
 }
+
+// svShapedSigTx: a fully concrete SEND A -> B whose single signature slot
+// carries A's key and bytes of a chosen shape, none of them a signature: the
+// byte-level acceptance rules in front of the verifier (length, the optional
+// hash tag of hardware-wallet signatures) decide alone.
+func svShapedSigTx() (action.SignedTx, int) {
+	msg := &transfer.Send{From: svParty_(0).Addr, To: svParty_(1).Addr, Amount: action.Amount{Currency: "OLT", Value: *balance.NewAmount(1)}}
+	data, err := msg.Marshal()
+	if err != nil {
+		sv.Unreachable("marshal")
+	}
+	raw := action.RawTx{Type: action.SEND, Data: data, Memo: "m",
+		Fee: action.Fee{Price: action.Amount{Currency: "OLT", Value: *balance.NewAmount(2000000000)}, Gas: 100000}}
+	tagged := func(tag string, n int) []byte { return append([]byte(tag), make([]byte, n)...) }
+	shapes := [][]byte{
+		{},                    // nothing
+		make([]byte, 1),       // one byte
+		make([]byte, 63),      // one short
+		make([]byte, 64),      // the right length, not a signature
+		make([]byte, 65),      // one long, no tag
+		make([]byte, 70),      // tag-sized prefix of zero bytes
+		tagged("SHA256", 64),  // tagged, pre-hash path
+		tagged("SHA224", 64),  // tagged, pre-hash path
+		tagged("SHA384", 64),  // tagged, pre-hash path
+		tagged("SHA512", 59),  // tagged, 65 bytes in all
+		tagged("SHA999", 64),  // unknown tag
+		tagged("SHA256", 0),   // a bare tag
+		tagged("sha256", 100), // lower-case tag, long
+	}
+	k := sv.Choice("sig.shape", len(shapes))
+	return action.SignedTx{RawTx: raw, Signatures: []action.Signature{{Signer: svParty_(0).Pub, Signed: shapes[k]}}}, k
+}
+
+// SV_C04_signature_shapes: bytes that are not a signature are not accepted
+// whatever their length and prefix.
+//
+// sv:bounds one concrete SEND A -> B (1 OLT, valid fee); the signature slot holds A's own key and one of 13 byte strings: empty, 1, 63, 64, 65, 70 zero bytes, the tags SHA224/256/384/512 followed by zero bytes (the hardware-wallet pre-hash format), an unknown tag, a bare tag, a lower-case tag
+// sv:outside genuine pre-hash signatures (the signature model has no byte length); the other key algorithms
+// sv:goal Validate refuses every one of them
+func SV_C04_signature_shapes() {
+	e := svNewEnv(2, 2, nil)
+	tx, _ := svShapedSigTx()
+	ok := e.validate(tx)
+	sv.Assert(!ok, "bytes-that-are-no-signature-are-refused")
+	sv.Cover(!ok, "rejected")
+	sv.Observe("ok", ok)
+}
